@@ -474,7 +474,7 @@ def gen_action(w, kind, action_map):
 def gen_case(w, cat_uuids):
     rng = w.rng
     t = rng.choice(sorted(TEST_ARITY))
-    ar = TEST_ARITY[t]
+    ar = rng.choice(TEST_ARITY[t])      # any argument count the test's validator accepts
     if t == "has_group":
         g = w.group_ref()
         args = [g["uuid"], g["name"]]
@@ -889,7 +889,9 @@ def run(ctx):
     TEST_ARITY = {}
     for t, chk in RouterCase.TEST_VALIDATIONS.items():
         ar = [n for n in range(4) if chk([None] * n)]
-        TEST_ARITY[t] = 0 if t in RouterCase.NO_ARGS_TESTS else (ar[0] if ar else 1)
+        # NOT derived from RouterCase.NO_ARGS_TESTS: a test with an optional argument (has_phone) must be
+        # exercised with it, whatever the loader thinks
+        TEST_ARITY[t] = ar if ar else [1]
     n_docs = (12000 if thorough else 500) * ctx.scale
     dist = {"canonical": 0, "defect_trigger": 0, "malformed": 0, "fixture": 0}
     kinds_total = {}
